@@ -19,6 +19,8 @@ RULE = ("histories as data: lists of up to 40 operations over a Path (item/slice
 ASSUMPTIONS = ["mutating a member segment directly is not 'through the Path's own interface' and is only done in the segment histories",
                "length with tolerance arguments: the answer must be at least as accurate as a fresh object's answer for the same arguments "
                "(reusing a tighter cached value is allowed); all other queries compare with == / same exception type"]
+# coverage-guided second engine (atheris), thorough tier only: (shards, libFuzzer runs per shard)
+FUZZ = {'thorough': (16, 12000)}
 CONFIGS = ['scipy', 'noscipy']
 BUDGET = {'quick': {'scipy': 700, 'noscipy': 300}, 'thorough': {'scipy': 20000, 'noscipy': 6000}}
 EXHAUSTIVE_NOTE = "all operation sequences of depth <= 3 (quick) / 4 (thorough) over a 24-operation alphabet, per configuration"
